@@ -501,6 +501,16 @@ def gen_program(rng, flavour, size=8, depth=3, nest=5):
                 p = rng.choice(cand)
                 pat = rng.choice(["*", name[:1] + "*", name[:2] + "*", "*" + name[-1:], name[:1] + "*" + name[-1:], name])
                 if "*" in pat:
+                    if not pat.endswith("*") and rng.random() < 0.6:
+                        # an element of the same type whose name EXTENDS a matching name (qf_a -> qf_ab): the wildcard must not reach it
+                        # (a prefix match instead of a full match would)
+                        ext = name + rng.choice(["b", "x", "2", "_1"])
+                        if ext not in used and ext not in elems:
+                            used.add(ext)
+                            ps2 = gen_props(rng, env, table, ty, depth)
+                            prog.append(["def", ext, ty, ps2])
+                            elems[ext] = ty
+                            note_props(ext, ty, ps2)
                     prog.append(["prop", ["wild", ty, pat], p, value_expr(rng, env, p, depth)])
                     import re as _re
                     rx = _re.compile(pat.replace("*", ".*"))
